@@ -743,6 +743,45 @@ func ruleTypeTables(c *Ctx) {
 					}
 				}
 			}
+			if built != cv {
+				// or the branch names the message type directly: a constant of type MessageType handed
+				// to a constructor, or stored into the Type field, one or two calls deep
+				builtType := int64(-1)
+				var scan func(f *ssa.Function, d int)
+				scan = func(f *ssa.Function, d int) {
+					if f == nil || f.Blocks == nil || d > 2 || !inRepo(f) {
+						return
+					}
+					allInstrs(f, func(i2 ssa.Instruction) {
+						switch y := i2.(type) {
+						case *ssa.Call:
+							for _, a := range y.Common().Args {
+								if cst, ok := a.(*ssa.Const); ok && strings.HasSuffix(cst.Type().String(), "proto.MessageType") {
+									if k, ok := constInt(cst); ok {
+										builtType = k
+									}
+								}
+							}
+							scan(staticCallee(y.Common()), d+1)
+						case *ssa.Store:
+							if _, f2, _, ok := fieldOf(y.Addr); ok && f2 == "Type" {
+								if k, ok := constInt(y.Val); ok {
+									builtType = k
+								}
+							}
+						}
+					})
+				}
+				for _, ins := range b.Succs[0].Instrs {
+					if call, ok := ins.(*ssa.Call); ok {
+						scan(staticCallee(call.Common()), 0)
+					}
+				}
+				if builtType == typ {
+					c.ok(rid, key, c.P.instrPos(iff), fmt.Sprintf("byte %q -> type %d, branch builds a message of that type", rune(cv), typ))
+					continue
+				}
+			}
 			c.check(built == cv, rid, key, c.P.instrPos(iff), fmt.Sprintf("byte %q -> type %d, branch builds a message from the same byte", rune(cv), typ), fmt.Sprintf("the branch taken for byte %q builds a message from byte %q", rune(cv), rune(built)))
 		}
 	}
